@@ -145,6 +145,21 @@ theorem inv_take (hinj : ∀ a b, cfg.packerOf a = cfg.packerOf b → a = b) {st
           fun q' h => hI.queue _ _ hs q' (by rw [hqe]; exact List.mem_cons_of_mem _ h)
         have hcok : cacheOK st.answers (st.cache (cfg.packerOf sid)) :=
           cache_at_owner hinj hI sid (fun s' q' ip hs' hp => by rw [hs] at hs'; cases hs'; rw [hidle] at hp; cases hp)
+        cases hup : cfg.upstream with
+        | some ap =>
+          obtain ⟨a, p⟩ := ap
+          simp only
+          refine frame hinj sid { s with queue := rest } hI (Nat.le_refl _) (hI.fresh _ _ hs) rfl
+            (fun _ _ => rfl) (fun _ h => h) (fun _ h => h) hrest ?_ (Or.inl hcok) ?_
+          · simp only [hidle, PcOK]
+          · intro w hw
+            simp only at hw
+            rcases List.mem_append.mp hw with h | h
+            · exact Or.inl h
+            · simp at h; subst h
+              exact Or.inr ⟨hqin, by simp [destOK, hup]⟩
+        | none =>
+        simp only
         cases htg : q.target with
         | ip a p =>
           simp only
@@ -156,7 +171,7 @@ theorem inv_take (hinj : ∀ a b, cfg.packerOf a = cfg.packerOf b → a = b) {st
             rcases List.mem_append.mp hw with h | h
             · exact Or.inl h
             · simp at h; subst h
-              exact Or.inr ⟨hqin, by simp [destOK, htg]⟩
+              exact Or.inr ⟨hqin, by simp [destOK, hup, htg]⟩
         | dom d port =>
           simp only
           split
@@ -165,11 +180,11 @@ theorem inv_take (hinj : ∀ a b, cfg.packerOf a = cfg.packerOf b → a = b) {st
               simpa using hhit
             refine frame hinj sid { s with queue := rest, pc := .storedIP q } hI (Nat.le_refl _) (hI.fresh _ _ hs) rfl
               (fun _ _ => rfl) (fun _ h => h) (fun _ h => h) hrest ?_ (Or.inl hcok) (fun w hw => Or.inl hw)
-            exact ⟨hqin, d, port, htg, hdom, hcok d hdom⟩
+            exact ⟨hup, hqin, d, port, htg, hdom, hcok d hdom⟩
           next =>
             refine frame hinj sid { s with queue := rest, pc := .resolving q d } hI (Nat.le_refl _) (hI.fresh _ _ hs) rfl
               (fun _ _ => rfl) (fun _ h => h) (fun _ h => h) hrest ?_ (Or.inl hcok) (fun w hw => Or.inl hw)
-            exact ⟨hqin, port, htg⟩
+            exact ⟨hup, hqin, port, htg⟩
     next => exact hI
 
 theorem inv_resolved (hinj : ∀ a b, cfg.packerOf a = cfg.packerOf b → a = b) {st : State} (hI : Inv cfg st)
@@ -184,14 +199,14 @@ theorem inv_resolved (hinj : ∀ a b, cfg.packerOf a = cfg.packerOf b → a = b)
     cases hpc : s.pc with
     | resolving q d =>
       rw [hpc] at hpc0
-      obtain ⟨hqin, port, htg⟩ := hpc0
+      obtain ⟨hup, hqin, port, htg⟩ := hpc0
       cases ans with
       | some ip =>
         simp only
         refine frame hinj sid { s with pc := .storedDomain q ip } hI (Nat.le_refl _) (hI.fresh _ _ hs) rfl
           (fun p hp => updF_other _ _ _ _ hp) (fun _ h => h) (mem_append_left' _) hq ?_ (Or.inr ⟨q, ip, rfl⟩)
           (fun w hw => Or.inl hw)
-        exact ⟨hqin, d, port, htg, by simp, by simp⟩
+        exact ⟨hup, hqin, d, port, htg, by simp, by simp⟩
       | none =>
         simp only
         refine frame hinj sid { s with pc := .idle } hI (Nat.le_refl _) (hI.fresh _ _ hs) rfl
@@ -213,11 +228,11 @@ theorem inv_storeIP (hinj : ∀ a b, cfg.packerOf a = cfg.packerOf b → a = b) 
     cases hpc : s.pc with
     | storedDomain q ip =>
       rw [hpc] at hpc0
-      obtain ⟨hqin, d, port, htg, hdom, hans⟩ := hpc0
+      obtain ⟨hup, hqin, d, port, htg, hdom, hans⟩ := hpc0
       simp only
       refine frame hinj sid { s with pc := .storedIP q } hI (Nat.le_refl _) (hI.fresh _ _ hs) rfl
         (fun p hp => updF_other _ _ _ _ hp) (fun _ h => h) (fun _ h => h) hq ?_ ?_ (fun w hw => Or.inl hw)
-      · exact ⟨hqin, d, port, htg, by simp [hdom], by simp [setSess, hans]⟩
+      · exact ⟨hup, hqin, d, port, htg, by simp [hdom], by simp [setSess, hans]⟩
       · refine Or.inl ?_
         intro d' hd'
         simp [hdom] at hd'
@@ -239,7 +254,7 @@ theorem inv_readSend (hinj : ∀ a b, cfg.packerOf a = cfg.packerOf b → a = b)
     cases hpc : s.pc with
     | storedIP q =>
       rw [hpc] at hpc0
-      obtain ⟨hqin, d, port, htg, hdom, hans⟩ := hpc0
+      obtain ⟨hup, hqin, d, port, htg, hdom, hans⟩ := hpc0
       simp only
       refine frame hinj sid { s with pc := .idle } hI (Nat.le_refl _) (hI.fresh _ _ hs) rfl
         (fun _ _ => rfl) (fun _ h => h) (fun _ h => h) hq trivial ?_ ?_
@@ -249,7 +264,7 @@ theorem inv_readSend (hinj : ∀ a b, cfg.packerOf a = cfg.packerOf b → a = b)
         rcases List.mem_append.mp hw with h | h
         · exact Or.inl h
         · simp at h; subst h
-          exact Or.inr ⟨hqin, by simp only [destOK, htg, Target.port]; exact ⟨hans, trivial⟩⟩
+          exact Or.inr ⟨hqin, by simp only [destOK, hup, htg, Target.port]; exact ⟨hans, trivial⟩⟩
     | idle => exact hI
     | resolving _ _ => exact hI
     | storedDomain _ _ => exact hI
@@ -285,7 +300,7 @@ theorem inv_run (hinj : ∀ a b, cfg.packerOf a = cfg.packerOf b → a = b) (act
 theorem sent_ok (cfg : Config) (hinj : ∀ a b, cfg.packerOf a = cfg.packerOf b → a = b) (acts : List Act) :
     ∀ w ∈ (run cfg State.init acts).sent,
       (∃ src, (w.sid, src, w.pkt) ∈ (run cfg State.init acts).recvd) ∧
-      destOK (run cfg State.init acts).answers w :=
+      destOK cfg.upstream (run cfg State.init acts).answers w :=
   (inv_run hinj acts (inv_init cfg)).sent
 
 end SSV.Relay
